@@ -124,6 +124,8 @@ class Units:
         self.scale = {}
         self.off_standard = []
         for name, s in self.std.items():
+            if name.startswith('_'):
+                continue
             rd = [F(x) for x in s["readings"]]
             c = self.code.get(name)
             if name in ("CELSIUS", "FAHRENHEIT"):
